@@ -27,6 +27,9 @@ func inRepoFn(fn *ssa.Function) bool {
 	if fn.Pkg != nil {
 		return core.InRepo(fn.Pkg.Pkg.Path())
 	}
+	if o := fn.Origin(); o != nil && o != fn {
+		return inRepoFn(o) // an instance of a generic function
+	}
 	if par := fn.Parent(); par != nil {
 		return inRepoFn(par)
 	}
@@ -52,6 +55,10 @@ func named(t types.Type) *types.Named {
 func BuildGraph(p *core.Program) *Graph {
 	g := &Graph{P: p, Edges: map[*ssa.Function]map[*ssa.Function]ssa.Instruction{}}
 	g.funcs = p.RepoFuncs()
+	known := map[*ssa.Function]bool{}
+	for _, f := range g.funcs {
+		known[f] = true
+	}
 	// in-repo named types for interface resolution
 	var repoTypes []types.Type
 	for _, sp := range p.SSAPkgs {
@@ -70,6 +77,11 @@ func BuildGraph(p *core.Program) *Graph {
 		}
 		if _, ok := g.Edges[from][to]; !ok {
 			g.Edges[from][to] = at
+		}
+		if !known[to] {
+			// instances of generic functions and bound-method wrappers are not package members: scan them when first reached
+			known[to] = true
+			g.funcs = append(g.funcs, to)
 		}
 	}
 	methodOf := func(t types.Type, name string) *ssa.Function {
@@ -134,7 +146,60 @@ func BuildGraph(p *core.Program) *Graph {
 		}
 		return nil
 	}
-	for _, fn := range g.funcs {
+	var dynFuncs func(v ssa.Value, depth int) []*ssa.Function
+	dynFuncs = func(v ssa.Value, depth int) []*ssa.Function {
+		switch x := v.(type) {
+		case *ssa.Function:
+			return []*ssa.Function{x}
+		case *ssa.MakeClosure:
+			if cf, ok := x.Fn.(*ssa.Function); ok {
+				out := []*ssa.Function{cf}
+				if strings.Contains(cf.Synthetic, "bound method wrapper") {
+					for _, b := range cf.Blocks {
+						for _, in := range b.Instrs {
+							if ic, ok := in.(*ssa.Call); ok && ic.Common().StaticCallee() != nil {
+								out = append(out, ic.Common().StaticCallee())
+							}
+						}
+					}
+				}
+				return out
+			}
+		case *ssa.Phi:
+			var out []*ssa.Function
+			for _, e := range x.Edges {
+				out = append(out, dynFuncs(e, depth)...)
+			}
+			return out
+		case *ssa.Parameter:
+			if depth <= 0 || x.Parent() == nil {
+				return nil
+			}
+			idx := -1
+			for i, prm := range x.Parent().Params {
+				if prm == x {
+					idx = i
+				}
+			}
+			var out []*ssa.Function
+			parent := x.Parent()
+			keys := []*ssa.Function{parent}
+			if o := parent.Origin(); o != nil {
+				keys = append(keys, o)
+			}
+			for _, k := range keys {
+				for _, c := range sites[k] {
+					if idx >= 0 && idx < len(c.Common().Args) {
+						out = append(out, dynFuncs(c.Common().Args[idx], depth-1)...)
+					}
+				}
+			}
+			return out
+		}
+		return nil
+	}
+	for fi := 0; fi < len(g.funcs); fi++ {
+		fn := g.funcs[fi]
 		for _, b := range fn.Blocks {
 			for _, in := range b.Instrs {
 				switch x := in.(type) {
@@ -198,14 +263,10 @@ func BuildGraph(p *core.Program) *Graph {
 						}
 						continue
 					}
-					// dynamic call through a function value: resolve closures/functions flowing locally
-					switch v := com.Value.(type) {
-					case *ssa.MakeClosure:
-						if cf, ok := v.Fn.(*ssa.Function); ok {
-							add(fn, cf, in)
-						}
-					case *ssa.Function:
-						add(fn, v, in)
+					// dynamic call through a function value: closures, functions and method values flowing locally or through
+					// parameters (to a depth of 3)
+					for _, tf := range dynFuncs(com.Value, 3) {
+						add(fn, tf, in)
 					}
 				}
 			}
